@@ -152,6 +152,11 @@ theorem wuf_condition_calls : callsOf "worker.WaitUntilFinished$1" = ["Load", "L
     worker never blocks in Response.Send -/
 theorem response_capacity_calls : callsOf "NewResponse" = ["make"] ∧ guardsOf "NewResponse" = [] := by decide
 
+/-- binding a queue to a worker that has been started before starts no new run but wakes the event loop: the queue
+    may already hold entries (persistent / distributed adapters) -/
+theorem start_calls : callsOf "worker.start" = ["Lock", "Unlock", "startRun", "notifyToPullNextJobs"] ∧
+    guardsOf "worker.start" = ["if:err!=nil"] := by decide
+
 /-- binding a distributed queue: the deferred calls run last-in-first-out, so the queue is registered
     before the run starts (whose first notification makes the event loop look at the registered queues)
     and the subscription to the adapter's announcements comes last -/
